@@ -58,8 +58,8 @@ def values_for(t, objs, types):
 class StateHist(Engine):
     name = "statehist"
     props = ("C36",)
-    nruns = {"quick": 6000, "thorough": 400000}
-    budgets = {"quick": 20.0, "thorough": 420.0}
+    nruns = {"quick": 8000, "thorough": 400000}
+    budgets = {"quick": 30.0, "thorough": 420.0}
     rule = (
         "script = seeded tree of UPState root/make_child operations over 3-6 ground fluents interleaved with "
         "observers (get_value on every ground fluent of every state after every operation, hash, ==, repr), work on a CLONE of the "
